@@ -99,13 +99,14 @@ theorem header_roundtrip (w h : Nat) (hw : w ≤ u32Max) (hh : h ≤ u32Max) (da
   rw [e]
   simp only [parseHeader, f, n1, n2, n3, parseUnsigned_decimal _ _ hw, parseUnsigned_decimal _ _ hh, p3]
 
-/-- A valid view has at most `u32::MAX` cells. -/
-theorem cells_le_u32 {v : View} (hf : Fits v.w v.h v.stride v.len) : v.w * v.h ≤ u32Max := by
+/-- The cells of a valid view fit in its data: `w·h ≤ len`. (Since `Inner::new` computes sizes in
+`usize`, views with `2^32` or more cells exist; `parse_pnm` refuses such images, see
+`ppm_too_large_is_error`, so the round trip carries the hypothesis `w·h ≤ u32::MAX`.) -/
+theorem cells_le_len {v : View} (hf : Fits v.w v.h v.stride v.len) : v.w * v.h ≤ v.len := by
   obtain ⟨h1, h2⟩ := hf
-  unfold u32Max
   rcases Nat.eq_zero_or_pos v.h with h0 | hpos
   · rw [h0]; simp
-  · obtain ⟨_, h4⟩ : (v.h - 1) * v.stride + v.w ≤ v.len ∧ (v.h - 1) * v.stride + v.w < 4294967296 := by
+  · have h4 : (v.h - 1) * v.stride + v.w ≤ v.len := by
       rcases h2 with h0 | h; omega; exact h
     have e1 : v.w * v.h = (v.h - 1) * v.w + v.w := by
       conv_lhs => rw [show v.h = (v.h - 1) + 1 by omega]
@@ -134,13 +135,13 @@ theorem rows_flatten {α : Type} (root : List α) (v : View) (hv : ViewInv root.
 stride, including empty ones — and arbitrary pixel bytes: `write_ppm` succeeds and `parse_pnm` of
 its output is an owned `w × h` image holding exactly the view's pixels in row-major order. -/
 theorem ppm_roundtrip (root : List Pixel) (v : View) (hv : ViewInv root.length v)
-    (hw : v.w ≤ u32Max) (hh : v.h ≤ u32Max) :
+    (hw : v.w ≤ u32Max) (hh : v.h ≤ u32Max) (hcells : v.w * v.h ≤ u32Max) :
     ∃ bytes, writePpm root v = .ok bytes ∧
       parsePnm bytes = .ok (.ok (imageView v.w v.h, (C11.denote root v).flatten)) := by
   obtain ⟨rs, hr, hfl, hlen⟩ := rows_flatten root v hv
   refine ⟨ppmHeader v.w v.h ++ (C11.denote root v).flatten.flatMap pixelBytes, ?_, ?_⟩
   · simp [writePpm, C11.asSlice_id hv, hr, hfl]
-  · have hcnt : ¬ v.w * v.h > u32Max := by have := cells_le_u32 hv.1; omega
+  · have hcnt : ¬ v.w * v.h > u32Max := by omega
     have htr : (triples ((C11.denote root v).flatten.flatMap pixelBytes)).take (v.w * v.h) =
         (C11.denote root v).flatten := by
       have := triples_pixelBytes (C11.denote root v).flatten [] (by simp)
@@ -179,12 +180,23 @@ theorem denote_image {α : Type} (px : List α) (w h : Nat) (hl : px.length = w 
   rw [e]
   exact flatten_rows_contiguous w h px hl
 
+/-- The limit of the round trip: an image of more than `u32::MAX` pixels is written without complaint,
+but `parse_pnm` rejects what was written (`checked_mul` → `InvalidNumber`) — an error, not a panic
+and not a wrong image. Such views need ≥ 12 GiB of pixels; outside the property's "moderate size". -/
+theorem ppm_too_large_is_error (root : List Pixel) (v : View) (hv : ViewInv root.length v)
+    (hw : v.w ≤ u32Max) (hh : v.h ≤ u32Max) (hbig : v.w * v.h > u32Max) :
+    ∃ bytes, writePpm root v = .ok bytes ∧ parsePnm bytes = .ok (.error .invalidNumber) := by
+  obtain ⟨rs, hr, hfl, _⟩ := rows_flatten root v hv
+  refine ⟨ppmHeader v.w v.h ++ (C11.denote root v).flatten.flatMap pixelBytes, ?_, ?_⟩
+  · simp [writePpm, C11.asSlice_id hv, hr, hfl]
+  · simp [parsePnm, header_roundtrip v.w v.h hw hh, hbig]
+
 /-- Round trip, cell by cell: the decoded image shows at `(x, y)` the pixel the view shows there. -/
 theorem ppm_roundtrip_cells (root : List Pixel) (v : View) (hv : ViewInv root.length v)
-    (hw : v.w ≤ u32Max) (hh : v.h ≤ u32Max) :
+    (hw : v.w ≤ u32Max) (hh : v.h ≤ u32Max) (hcells : v.w * v.h ≤ u32Max) :
     ∃ bytes v' px, writePpm root v = .ok bytes ∧ parsePnm bytes = .ok (.ok (v', px)) ∧
       v'.w = v.w ∧ v'.h = v.h ∧ Buf.iter px v' = Buf.iter root v := by
-  obtain ⟨bytes, h1, h2⟩ := ppm_roundtrip root v hv hw hh
+  obtain ⟨bytes, h1, h2⟩ := ppm_roundtrip root v hv hw hh hcells
   have hvalid := parse_view_valid bytes _ _ h2
   refine ⟨bytes, _, _, h1, h2, rfl, rfl, ?_⟩
   obtain ⟨rs, hr, hfl, hlen⟩ := rows_flatten root v hv
